@@ -217,6 +217,15 @@ Proof.
         pose proof (Hgt_r (rn - 1 - j)%nat ltac:(lia)). lia.
 Qed.
 
+Lemma NoDup_app_remove_l {A} (l l' : list A) : NoDup (l ++ l') -> NoDup l'.
+Proof. induction l as [|x l IH]; cbn; intros H; [exact H|]. inversion H; subst. apply IH. assumption. Qed.
+
+Lemma NoDup_app_remove_r {A} (l l' : list A) : NoDup (l ++ l') -> NoDup l.
+Proof.
+  induction l as [|x l IH]; cbn; intros H; [constructor|]. inversion H as [|? ? Hx Hl]; subst.
+  constructor; [|apply IH; exact Hl]. intros Hin. apply Hx. apply in_or_app. left. exact Hin.
+Qed.
+
 (* a repeated consecutive index shows up in the top row or in the bottom row of the contour *)
 Lemma repeat_breaks_row (f g : nat -> pix) (n : Z) (m : nat) :
   (forall i, f i = f (S i) <-> idx n m i = idx n m (S i)) ->
@@ -248,16 +257,16 @@ Proof.
   split.
   - destruct (Z_le_gt_dec (Z.of_nat cn) w) as [H|H]; [exact H|exfalso].
     apply (repeat_breaks_row (fun i => (0, idx w cn i)) (fun i => (h - 1, idx w cn (cn - 1 - i))) w cn); try assumption; try lia.
-    + intros i. split; intros E; [inversion E; reflexivity|rewrite E; reflexivity].
+    + intros i. split; intros E; [apply (f_equal snd) in E; cbn in E; congruence|congruence].
     + intros i Hi. replace (cn - 1 - (cn - 1 - S i))%nat with (S i) by lia.
       replace (cn - 1 - (cn - 1 - i))%nat with i by lia.
-      split; intros E; [inversion E as [E']; symmetry; exact E'|rewrite E; reflexivity].
+      split; intros E; [apply (f_equal snd) in E; cbn in E; congruence|congruence].
   - destruct (Z_le_gt_dec (Z.of_nat rn) h) as [H|H]; [exact H|exfalso].
     apply (repeat_breaks_row (fun i => (idx h rn i, w - 1)) (fun i => (idx h rn (rn - 1 - i), 0)) h rn); try assumption; try lia.
-    + intros i. split; intros E; [inversion E; reflexivity|rewrite E; reflexivity].
+    + intros i. split; intros E; [apply (f_equal fst) in E; cbn in E; congruence|congruence].
     + intros i Hi. replace (rn - 1 - (rn - 1 - S i))%nat with (S i) by lia.
       replace (rn - 1 - (rn - 1 - i))%nat with i by lia.
-      split; intros E; [inversion E as [E']; symmetry; exact E'|rewrite E; reflexivity].
+      split; intros E; [apply (f_equal fst) in E; cbn in E; congruence|congruence].
 Qed.
 
 Theorem ring_no_repeat_iff h w rn cn : 2 <= h -> 2 <= w -> (2 <= rn)%nat -> (2 <= cn)%nat ->
@@ -339,8 +348,8 @@ Proof.
   rewrite !last_opt_cons_app in *. cbn [hd_error] in *.
   inversion H1; inversion H2; inversion H3; inversion H4; subst.
   unfold contour, reverse_boundaries. cbn [rev map app concat].
-  rewrite !rev_ends, !removelast_ends. cbn [app rotl1].
-  rewrite app_nil_r.
+  rewrite !removelast_last, !removelast_ends. cbn [app rotl1].
+  rewrite !app_nil_r.
   repeat (rewrite rev_app_distr; cbn [rev app]).
   repeat rewrite <- app_assoc. cbn [app]. reflexivity.
 Qed.
@@ -349,23 +358,26 @@ Qed.
 Lemma cross2_swap p q : cross2 q p = - cross2 p q.
 Proof. unfold cross2. lia. Qed.
 
+Lemma path_area2_cons2 a b r : path_area2 (a :: b :: r) = cross2 a b + path_area2 (b :: r).
+Proof. reflexivity. Qed.
+
 Lemma path_area2_app l1 p l2 : path_area2 (l1 ++ p :: l2) = path_area2 (l1 ++ [p]) + path_area2 (p :: l2).
 Proof.
   induction l1 as [|a l1 IH].
-  - cbn. destruct l2; cbn; lia.
+  - cbn [app]. change (path_area2 [p]) with 0. lia.
   - destruct l1 as [|b l1].
-    + cbn [app]. cbn [path_area2]. destruct l2; cbn; lia.
-    + cbn [app] in *. cbn [path_area2]. fold (path_area2 (b :: l1 ++ p :: l2)).
-      fold (path_area2 (b :: l1 ++ [p])). rewrite IH. lia.
+    + cbn [app]. rewrite !path_area2_cons2. change (path_area2 [p]) with 0. lia.
+    + cbn [app] in *. rewrite !path_area2_cons2. rewrite IH. lia.
 Qed.
 
 Lemma path_area2_rev l : path_area2 (rev l) = - path_area2 l.
 Proof.
   induction l as [|p l IH]; [reflexivity|].
   destruct l as [|q l]; [reflexivity|].
-  cbn [rev] in *. rewrite <- app_assoc. cbn [app].
+  change (rev (p :: q :: l)) with ((rev l ++ [q]) ++ [p]). change (rev (q :: l)) with (rev l ++ [q]) in IH.
+  rewrite <- app_assoc. cbn [app].
   rewrite path_area2_app. rewrite IH.
-  cbn [path_area2]. rewrite (cross2_swap p q). lia.
+  rewrite !path_area2_cons2. change (path_area2 [p]) with 0. rewrite (cross2_swap p q). lia.
 Qed.
 
 Theorem reverse_flips_area (S : list (list pix)) :
